@@ -61,6 +61,21 @@ func tamperCase() Case {
 		}}
 }
 
+func concCase(prop, engine string, weight int, free bool, oracles map[string]bool) Case {
+	prof := dbworld.Profile{Prop: prop, Oracles: oracles}
+	return Case{Prop: prop, Engine: engine, Weight: weight,
+		Real: []string{"db", "acl", "audit", "server handlers", "client/setec.Client", "tink AEAD (real key)", "tmpfs file system"},
+		Stub: []string{"tailnet WhoIs", "network (in-process transport)", "goroutine scheduler (baton at lock/audit/WhoIs/transport park points)"},
+		Run: func(s *kernel.Sim) Outcome {
+			p := prof
+			e := dbworld.RunConc(s, &p, free)
+			if e == nil {
+				return Outcome{}
+			}
+			return Outcome{Trace: e.Trace, Nontrivial: s.Step > 0 || free, Ops: e.Ops}
+		}}
+}
+
 // Cases lists every (property, engine) pair.
 var Cases = []Case{
 	seqCase("C02", "dbworld-seq", 1, dbworld.Profile{MaxOps: 40, MaxNames: 3,
@@ -78,6 +93,9 @@ var Cases = []Case{
 	seqCase("C05", "dbworld-scan", 3, dbworld.Profile{Scan: true, KEKOutage: true, RestartMode: 1, MaxOps: 25, MaxNames: 3,
 		Oracles: orc("plaintext", "mode", "kek", "result", "state", "restart", "open")}),
 	tamperCase(),
+	concCase("C14", "dbworld-conc", 1, false, orc("linearizable", "deadlock")),
+	concCase("C14", "dbworld-conc-free", 1, true, orc("linearizable", "deadlock")),
+	concCase("C06", "dbworld-conc-free", 1, true, orc("audit-file")),
 }
 
 // CasesFor returns the cases of a property.
